@@ -117,6 +117,7 @@ pub const AUTH_ENDPOINTS: &[&str] = &[
     "https://a.example/auth?tenant=x&y#frag",
     "https://a.example/auth#frag?not=query",
     "https://a.example/auth?client_id=old&state=old&redirect_uri=old",
+    "https://a.example/auth?st%61te=fixed&respon%73e_type=none&scope=a",
     "https://a.example",
     "https://[::1]:8443/o/auth?é=ü",
     "https://user:pw@a.example/auth?&&",
@@ -174,6 +175,16 @@ impl CaseInput for AuthUrlCase {
             None
         };
         let pkce = r.below(3) as u8;
+        let client_redirect = if r.chance(1, 2) { Some(gen::redirect_text(r)) } else { None };
+        // the per-request override: independent, or (one time in four) the SAME URL as the client default spelt differently
+        let override_redirect = if r.chance(1, 3) {
+            match (&client_redirect, r.chance(1, 4)) {
+                (Some(d), true) => gen::redirect_variant(r, d).or_else(|| Some(gen::redirect_text(r))),
+                _ => Some(gen::redirect_text(r)),
+            }
+        } else {
+            None
+        };
         let nsc = *r.pick(&[0u64, 0, 1, 1, 2, 3]);
         let nex = *r.pick(&[0u64, 0, 1, 2, 4]);
         AuthUrlCase {
@@ -183,8 +194,8 @@ impl CaseInput for AuthUrlCase {
             custom_rt: if r.chance(1, 2) { "code id_token".into() } else { gen::hostile_s(r) },
             pkce,
             verifier: legal_verifier(r, pkce == 2),
-            client_redirect: if r.chance(1, 2) { Some(gen::redirect_text(r)) } else { None },
-            override_redirect: if r.chance(1, 3) { Some(gen::redirect_text(r)) } else { None },
+            client_redirect,
+            override_redirect,
             scopes: (0..nsc).map(|_| if r.chance(1, 6) { String::new() } else { gen::mixed(r) }).collect(),
             extras: (0..nex)
                 .map(|_| {
